@@ -563,7 +563,8 @@ def check(ctx, replay=None):
                 li, vk, what, ex_, ob = v
                 add(vk, dict(part="st", optset=k, optname=name, universe=U, script=s[:li], kind=kind), what, ex_, ob)
     # ---------------------------------------------------------------- other classes, pair mode against rebuilt objects
-    for v in ovars:
+    is_probe = bool(rp) and rp.get("part") == "others" and rp["script"][0].endswith("#probe")
+    for v in ([] if is_probe else ovars):
         rng = __import__("random").Random(ctx.seed * 104729 + crc(v["tag"]))
         if rp:
             scr = [rp["script"]]
@@ -593,6 +594,19 @@ def check(ctx, replay=None):
                     res.count("pair-mode:derivation:" + w[0])
             for (vk, what, li, ex_, ob) in vs[:1]:
                 add(vk, dict(part="others", variant=v["tag"], script=sc[:li + 1]), what, ex_, ob)
+    # ---------------------------------------------------------------- probe: is a moved-from Matrix usable again? (recorded finding)
+    for v in ovars:
+        if v["src"] != "c15_pm_drv.cpp" or "-DBASE=1" in v["flags"] or (rp and not is_probe):
+            continue
+        probe = ["H %s #probe" % v["tag"], "N 0 2", "O 0 I 0 0", "MC 1 0", "O 0 I 1 0", "D 0", "D 1"]
+        (ans, death), = run_scripts(bins[v["tag"]], [probe])
+        res.count("probe:moved-from-matrix")
+        a4 = ans[3] if len(ans) > 3 else ""
+        if death or not a4.startswith("ok") or "EXC" in a4.split("|")[0]:
+            add("pm:moved-from-matrix-not-usable", dict(part="others", variant=v["tag"], script=probe),
+                "Matrix<%s>: insert_boundary on a moved-from matrix (null column settings)" % v["tag"], "the moved-from matrix is empty and usable again",
+                (death["san"] or death["sig"] or "died") if death else a4[:200])
+        break
     # ---------------------------------------------------------------- threads
     if do_tsan:
         for rep in range(3 if thorough else 1):
